@@ -412,31 +412,35 @@ Fixpoint sel_queries (ops : list op) : list query :=
 
 (* ---- a document value laid out on a heap, every slice and map its own object ---- *)
 
-Definition load_arr (h : heap) (l : list string) : heap * option oid :=
+(* [rep] = how an EMPTY slice / map of the document is represented in memory:
+   false = nil, true = empty but non-nil ([]string{}, map[...]...{}): an object of its own.
+   Both are the same value; clone() treats them differently (a non-nil empty map is
+   copied into a fresh map, append([]string(nil), empty...) is nil). *)
+Definition load_arr (rep : bool) (h : heap) (l : list string) : heap * option oid :=
   match l with
-  | [] => (h, None)
+  | [] => if rep then let '(h', o) := alloc h (OArr []) in (h', Some o) else (h, None)
   | _ => let '(h', o) := alloc h (OArr l) in (h', Some o)
   end.
 
-Definition load_map (h : heap) (m : amap) : heap * option oid :=
+Definition load_map (rep : bool) (h : heap) (m : amap) : heap * option oid :=
   match m with
-  | [] => (h, None)
+  | [] => if rep then let '(h', o) := alloc h (OMap []) in (h', Some o) else (h, None)
   | _ => let '(h', o) := alloc h (OMap m) in (h', Some o)
   end.
 
-Definition load_stmt (h : heap) (s : stmt) : heap * oid :=
-  let '(h1, sc) := load_arr h (s_scopes s) in
-  let '(h2, ov) := load_map h1 (sv_override (s_sv s)) in
-  let '(h3, st) := load_arr h2 (s_stores s) in
-  let '(h4, ids) := load_arr h3 (s_ids s) in
+Definition load_stmt (rep : bool) (h : heap) (s : stmt) : heap * oid :=
+  let '(h1, sc) := load_arr rep h (s_scopes s) in
+  let '(h2, ov) := load_map rep h1 (sv_override (s_sv s)) in
+  let '(h3, st) := load_arr rep h2 (s_stores s) in
+  let '(h4, ids) := load_arr rep h3 (s_ids s) in
   alloc h4 (OStmt (s_name s) sc (sv_level (s_sv s)) ov (sv_vts (s_sv s)) st ids (s_global s)).
 
-Fixpoint load_doc (h : heap) (d : list stmt) : heap * list oid :=
+Fixpoint load_doc (rep : bool) (h : heap) (d : list stmt) : heap * list oid :=
   match d with
   | [] => (h, [])
   | s :: d' =>
-      let '(h1, sid) := load_stmt h s in
-      let '(h2, doc) := load_doc h1 d' in
+      let '(h1, sid) := load_stmt rep h s in
+      let '(h2, doc) := load_doc rep h1 d' in
       (h2, sid :: doc)
   end.
 
@@ -490,7 +494,8 @@ Record input := mk_input {
   i_q1 : query;            (* first selection *)
   i_ws : list wr;          (* what the caller then does to the statement it received *)
   i_q2 : query;            (* a later selection on the same document *)
-  i_ver : bool }.          (* the verifier level was observed too (needs an accepted document) *)
+  i_ver : bool;            (* the verifier level was observed too (needs an accepted document) *)
+  i_rep : bool }.          (* empty slices / maps of the document are non-nil (see load_arr) *)
 
 Record obs := mk_obs {
   o_r1 : res;              (* first selection, before the caller touches it *)
@@ -534,7 +539,7 @@ Definition obs_eqb (a b : obs) : bool :=
 Definition is_oci (q : query) : bool := match q with QOci _ => true | _ => false end.
 
 Definition model (i : input) : obs :=
-  let '(h0, doc) := load_doc [] (i_doc i) in
+  let '(h0, doc) := load_doc (i_rep i) [] (i_doc i) in
   (* first selection, then the caller's writes through the pointer it received *)
   let hr1 := h_select true h0 doc (i_q1 i) in
   let h2 := match snd hr1 with
